@@ -59,6 +59,7 @@ struct MaskedWorld : World {
         int tape = r.chance(1, 3) ? TAPE_RANDOM : (int)r.below(TAPE_NKINDS);
         pl.add("knob.tape", {tape, (int64_t)(r.next() >> 1)});
         pl.add("knob.page", {(int64_t)(r.chance(1, 4) ? 1 : 0)});
+        pl.add("knob.unhealthy", {(int64_t)(r.chance(1, 8) ? 1 : 0)}); // the random source reports that it could not be seeded (its values still flow)
         int nops = thorough ? 24 + (int)r.below(40) : 12 + (int)r.below(36);
         for (int i = 0; i < nops; ++i) {
             unsigned c = (unsigned)r.below(100);
@@ -162,6 +163,8 @@ struct MaskedWorld : World {
         uint64_t tseed = 0;
         for (const Op &o : plan.ops) if (o.name == "knob.tape") tseed = o.u(1);
         tape_reset(c.tape, tseed);
+        g_tape.unhealthy = plan.knob("unhealthy", 0) != 0;
+        if (g_tape.unhealthy) run.fault("rng.reports_unseeded");
         run.fault(std::string("rng.tape_") + tape_name[c.tape]);
         ascon_trng_init(&c.trng);
         for (int s = 0; s < NST; ++s) ascon_masked_state_init(c.sp[s]);
